@@ -677,7 +677,8 @@ def merge(*tables, **kwargs):
     assert 'key' in kwargs, 'keyword argument "key" is required'
     key = kwargs['key']
     t1 = mergesort(*tables, **kwargs)
-    t2 = mergeduplicates(t1, key=key, presorted=True)
+    t2 = mergeduplicates(t1, key=key, missing=kwargs.get('missing', None),
+                         presorted=True)
     return t2
 
 
